@@ -169,3 +169,30 @@ Example alloc_frame_example :
   allocate 10 (with_metrics i (mk_metric 6 (Some 1%N) 3600 true :: metrics i)) (fun l => l) = Ok [1; 6]%N.
 Proof. cbv zeta. split; [|repeat split; vm_compute; reflexivity].
   intros m [<-|[<-|[<-|[]]]]; vm_compute; auto. Qed.
+
+(* ---- the Go map's iteration order ----
+   `ord` stands for the order in which Go iterates the map of current holders. It cannot change whether allocate succeeds,
+   which error it returns, or how many peers it returns; and unless healthy holders must be dropped (more of them than max)
+   it cannot change the set of peers returned either. (With more healthy holders than max, WHICH of them stay does depend
+   on it: alloc_order_example.) *)
+Theorem alloc_order_outcome now i o1 o2 : order_oracle o1 -> order_oracle o2 ->
+  same_outcome (allocate now i o1) (allocate now i o2).
+Proof. exact (alloc_order_outcome_l now i o1 o2). Qed.
+Print Assumptions alloc_order_outcome.
+
+Theorem alloc_order_same_peers now i o1 o2 l1 l2 : order_oracle o1 -> order_oracle o2 ->
+  ncur_of now i <= rmax i -> allocate now i o1 = Ok l1 -> allocate now i o2 = Ok l2 -> Permutation l1 l2.
+Proof. exact (alloc_order_perm_l now i o1 o2 l1 l2). Qed.
+Print Assumptions alloc_order_same_peers.
+
+Example alloc_order_example :
+  let ms := [mk_metric 1 (Some 70%N) 3600 true; mk_metric 2 (Some 10%N) 3600 true; mk_metric 3 (Some 30%N) 3600 true;
+             mk_metric 4 (Some 5%N) 3600 true] in
+  let over := mk_input 1 2 [1; 2; 3]%N ms [] [] false in     (* three healthy holders, max 2: one must go *)
+  let under := mk_input 3 3 [1; 2]%N ms [] [] false in       (* two healthy holders, one to add *)
+  order_oracle (fun l => l) /\ order_oracle (@List.rev N) /\
+  allocate 0 over (fun l => l) = Ok [1; 2]%N /\ allocate 0 over (@List.rev N) = Ok [3; 2]%N /\
+  ncur_of 0 under <= rmax under /\
+  allocate 0 under (fun l => l) = Ok [1; 2; 4]%N /\ allocate 0 under (@List.rev N) = Ok [2; 1; 4]%N.
+Proof. cbv zeta. split; [intros xs; reflexivity|]. split; [intros xs; symmetry; apply Permutation_rev|].
+  repeat split; vm_compute; try reflexivity. discriminate. Qed.
